@@ -870,19 +870,31 @@ pub async fn settle_with(window: Duration, max_rounds: u32) {
 }
 
 /// Polls the future at most `max_polls` times, then drops it (cancellation fault).
+///
+/// If the future stops being woken before that many polls happened, it is dropped after 0.3 s of
+/// virtual time without completing (under the paused clock: when nothing else can make progress),
+/// i.e. it is cancelled at the point where it got stuck.
 pub struct CancelAfter<F> {
     fut: Option<Pin<Box<F>>>,
     left: u32,
+    deadline: Option<Pin<Box<tokio::time::Sleep>>>,
 }
 
 pub fn cancel_after<F: Future>(fut: F, max_polls: u32) -> CancelAfter<F> {
-    CancelAfter { fut: Some(Box::pin(fut)), left: max_polls }
+    CancelAfter { fut: Some(Box::pin(fut)), left: max_polls, deadline: None }
 }
 
 impl<F: Future> Future for CancelAfter<F> {
     type Output = Option<F::Output>;
     fn poll(mut self: Pin<&mut Self>, cx: &mut Context<'_>) -> Poll<Self::Output> {
         if self.left == 0 {
+            self.fut = None;
+            return Poll::Ready(None);
+        }
+        if self.deadline.is_none() {
+            self.deadline = Some(Box::pin(tokio::time::sleep(Duration::from_millis(300))));
+        }
+        if self.deadline.as_mut().unwrap().as_mut().poll(cx).is_ready() {
             self.fut = None;
             return Poll::Ready(None);
         }
